@@ -55,12 +55,12 @@ def gen_comp(rng, n_ids):
     return subs
 
 
-def build_hll(subs, n_ids, posterior=False, bare=False):
+def build_hll(subs, n_ids, posterior=False, bare=False, nest=None):
     import chi, pints
     from harness.toy import PolyToyModel
     S = [Sub(**d) for d in subs]
     n_dim = popspec.total_dims(S)
-    pop = S[0].build() if bare else chi.ComposedPopulationModel([s.build() for s in S])
+    pop = S[0].build() if bare else popspec.compose(S, nest)
     lls = []
     for i in range(n_ids):
         ll = chi.LogLikelihood(PolyToyModel(max(n_dim - 1, 1) if n_dim > 1 else 1), chi.GaussianErrorModel(),
@@ -96,8 +96,8 @@ def valid_vector(S, n_ids):
     return bottom + top
 
 
-def observe(subs, n_ids, posterior, bare=False):
-    h, pop, S = build_hll(subs, n_ids, posterior, bare=bare)
+def observe(subs, n_ids, posterior, bare=False, nest=None):
+    h, pop, S = build_hll(subs, n_ids, posterior, bare=bare, nest=nest)
     if h is None:
         return None
     ids = h.get_id()
@@ -255,13 +255,75 @@ def reconfigure_mech(rng):
     return {'mech': on_ll, 'ops': ops}, None
 
 
+def reconfigure_stack(rng):
+    """a likelihood, predictive model or problem controller built on a reduced mechanistic model, queried repeatedly
+    and reconfigured: number of parameters = number of names (all distinct) = length of the evaluated vector, for
+    the object and for the mechanistic model underneath, and asking does not change the answer"""
+    import chi
+    from harness.toy import ToyModel
+    kind = rng.choice(['ll', 'pred', 'ctrl'])
+    red = chi.ReducedMechanisticModel(ToyModel(2))
+    ops = []
+    pre = rng.choice(['fresh', 'fresh', 'fixed and released', 'one fixed'])
+    if pre != 'fresh':
+        red.fix_parameters({'p1': 0.75})
+        if pre == 'fixed and released':
+            red.fix_parameters({'p1': None})
+    ops.append(pre)
+    ems = [chi.GaussianErrorModel(), chi.ConstantAndMultiplicativeGaussianErrorModel()]
+    if kind == 'll':
+        obj = chi.LogLikelihood(red, ems, [[1.0, 2.0], [1.5]], [[0.5, 1.0], [2.0]])
+    elif kind == 'pred':
+        obj = chi.PredictiveModel(red, ems)
+    else:
+        obj = chi.ProblemModellingController(red, ems)
+    count = (lambda: obj.get_n_parameters()) if kind == 'ctrl' else (lambda: obj.n_parameters())
+    for step in range(rng.choice([2, 3, 4, 5])):
+        op = rng.choice(['query', 'query', 'fix', 'release', 'evaluate'])
+        names = list(obj.get_parameter_names())
+        try:
+            if op == 'fix' and len(names) > 1:
+                obj.fix_parameters({rng.choice(names): 0.75})
+            elif op == 'release':
+                obj.fix_parameters({n: None for n in rng.sample(names, rng.randint(1, len(names)))})
+        except Exception as e:
+            return {'kind': kind, 'ops': ops + [op]}, 'after %r, %s raised %s: %s' % (ops, op, type(e).__name__, e)
+        ops.append(op)
+        first, second, n = list(obj.get_parameter_names()), list(obj.get_parameter_names()), count()
+        if first != second:
+            return {'kind': kind, 'ops': ops}, 'after %r two successive name queries give %r and %r' % (ops, first, second)
+        if len(first) != n or len(set(first)) != n:
+            return {'kind': kind, 'ops': ops}, 'after %r: %d parameters, names %r' % (ops, n, first)
+        m = obj.get_submodels()['Mechanistic model'] if hasattr(obj, 'get_submodels') else None
+        for mm in (m, red):
+            if mm is not None and (len(mm.parameters()) != mm.n_parameters() or len(set(mm.parameters())) != mm.n_parameters()):
+                return {'kind': kind, 'ops': ops}, 'after %r the mechanistic model reports %d parameters, names %r' % (
+                    ops, mm.n_parameters(), mm.parameters())
+        if op == 'evaluate' or step == 0:
+            v = [0.5 + 0.25 * k for k in range(n)]
+            try:
+                if kind == 'll':
+                    _, g = obj.evaluateS1(v)
+                    if len(g) != n:
+                        return {'kind': kind, 'ops': ops}, 'after %r: gradient of length %d for %d parameters' % (ops, len(g), n)
+                elif kind == 'pred':
+                    obj.sample(v, [0.5, 1.0], n_samples=2, seed=1)
+            except Exception as e:
+                return {'kind': kind, 'ops': ops}, 'after %r a vector of the reported length %d is refused: %s: %s' % (
+                    ops, n, type(e).__name__, e)
+    return {'kind': kind, 'ops': ops}, None
+
+
 def oracle(case):
+    if case.get('type') == 'reconf_stack':
+        return reconfigure_stack(random.Random(case['seed']))[1]
     if case.get('type') == 'reconf':
         return reconfigure(random.Random(case['seed']))[1]
     if case.get('type') == 'reconf_mech':
         return reconfigure_mech(random.Random(case['seed']))[1]
     try:
-        obs = observe(case['subs'], case['n_ids'], case.get('posterior', False), case.get('bare', False))
+        obs = observe(case['subs'], case['n_ids'], case.get('posterior', False), case.get('bare', False),
+                      case.get('nest'))
     except Exception as e:
         return 'chi raised %s: %s' % (type(e).__name__, e)
     return None if obs is None else direct(case['subs'], case['n_ids'], obs)
@@ -288,10 +350,11 @@ def run(ck):
     exprs, payload = [], {}
     for i, (subs, n_ids) in enumerate(comps):
         # a single model is also used on its own, not wrapped in a ComposedPopulationModel
-        case = {'subs': subs, 'n_ids': n_ids, 'posterior': i % 3 == 0, 'bare': len(subs) == 1 and i % 2 == 0}
+        case = {'subs': subs, 'n_ids': n_ids, 'posterior': i % 3 == 0, 'bare': len(subs) == 1 and i % 2 == 0,
+                'nest': [i % (len(subs) - 1), len(subs)] if len(subs) > 1 and i % 5 == 4 else None}
         S = [Sub(**d) for d in subs]
         try:
-            obs = observe(subs, n_ids, case['posterior'], case['bare'])
+            obs = observe(subs, n_ids, case['posterior'], case['bare'], case['nest'])
         except Exception as e:
             ck.violation(key_of(case, ''), 'chi raised %s: %s' % (type(e).__name__, e), case)
             continue
@@ -329,6 +392,16 @@ def run(ck):
         ck.case({'reconfiguration_mech': desc})
         if fail:
             ck.violation('C17|reconfiguration_mech', fail, {'type': 'reconf_mech', 'seed': seed})
+    for j in range(ck.n(120, 800)):
+        seed = ck.seed * 41 + j
+        try:
+            desc, fail = reconfigure_stack(random.Random(seed))
+        except Exception as e:
+            desc, fail = {'seed': seed}, 'chi raised %s: %s' % (type(e).__name__, e)
+        ck.count('likelihood / predictive model / controller on a reduced mechanistic model')
+        ck.case({'reconfiguration_stack': desc})
+        if fail:
+            ck.violation('C17|reconfiguration_stack', fail, {'type': 'reconf_stack', 'seed': seed})
     ck.cov['rule'] = ('compositions of 1-4 sub-models drawn from 5 kinds x n_dim 1-2 x centred flag x {no covariates, '
                       'default selection, custom selection with duplicates} (thorough: all ordered pairs, exhaustive), '
                       '1-3 individuals, as HierarchicalLogLikelihood or HierarchicalLogPosterior, evaluated with '
